@@ -201,7 +201,12 @@ def one(ctx, rng, xr, ws, fmt, d):
             key0 += "|gz=%s|ntime=%s" % (gz, "all" if opts["ntime"] is None else ("lt" if opts["ntime"] < nt else "eq"))
         elif base == "json":
             path = os.path.join(d, "out.json")
-            again = lambda: (ds.spec.to_json(path), ws.read_json(path))[1]
+            jkw = {}
+            if rng.random() < 0.25:
+                # documented option of writer and reader: another (whole-second) way of spelling the time stamps
+                jkw = {"date_format": str(rng.choice(["%Y%m%dT%H%M%S", "%d/%m/%Y %H:%M:%S", "%Y-%j %H:%M:%S"]))}
+                rec.note("json_with_other_date_format")
+            again = lambda: (ds.spec.to_json(path, **jkw), ws.read_json(path, **jkw))[1]
             back = again()
         elif base == "netcdf":
             path = os.path.join(d, "out.nc")
@@ -248,7 +253,7 @@ def one(ctx, rng, xr, ws, fmt, d):
         rec.bad("roundtrip_" + base, key0, {"raised": repr(e)[:400], "options": opts, "sizes": dict(ds.sizes)}, mech)
         return
     compare(rec, base, key0, ds, back, kinds, opts)
-    if rng.random() < 0.3:
+    if rng.random() < 0.3 and not (base == "json" and locals().get("jkw")):      # (the json engine takes no date_format)
         # the registered xarray engine of the format opens the same file: held against the written dataset like the reader
         eng = {"swan": "swan", "octopus": "octopus", "json": "json", "netcdf": str(rng.choice(["wavespectra", "netcdf"])), "ww3": "ww3"}[base]
         try:
